@@ -51,7 +51,7 @@ type c13Case struct {
 }
 
 func recC13() *vkit.Recorder {
-	r := vkit.Rec("C13", "fault_enumeration", "sequences of scrape attempts through the real Proxy behind a real net/http server and client; failure kind x offset: transport error, non-200 status, timeout (body blocks until the scrape context ends), body error after k bytes (k over 0, 1, inside first line, block boundaries 4095/4096/65535/65536/65537, last byte, random), truncated gzip stream at k, stop-scrape reason, requests rejected before an attempt; success as control; oracle: failure => client sees status != 200 or a transport/body error, never a complete 200 with truncated content; status entry health/lastError truthful; scrape counter +1 per attempt on an assigned target; non-trivial = mid-body failure with k > 0 (response already started); distinct = digest of (kind, lines, offset, cut, assigned)")
+	r := vkit.Rec("C13", "fault_enumeration", "sequences of scrape attempts through the real Proxy behind a real net/http server and client; failure kind x offset: transport error, non-200 status, timeout (body blocks until the scrape context ends), body error after k bytes (k over 0, 1, inside first line, block boundaries 4095/4096/65535/65536/65537, last byte, random), truncated gzip stream at k, stop-scrape reason, requests rejected before an attempt, API calls handled while the scrape is in flight (stop reason set / cleared, the same target list re-posted); success as control; oracle: failure => client sees status != 200 or a transport/body error, never a complete 200 with truncated content; status entry health/lastError truthful; scrape counter +1 per attempt on an assigned target; non-trivial = mid-body failure with k > 0 (response already started); distinct = digest of (kind, lines, offset, cut, assigned)")
 	r.Assume("the Prometheus side is a standard net/http client; a scrape that fails must be visible to it as a non-200 status or as an error while reading the body")
 	return r
 }
